@@ -304,8 +304,8 @@ impl NoLockingPool {
     
     /// Allocate memory block of given size
     pub fn alloc(&mut self, size: usize) -> Result<MemOffset> {
-        if size == 0 || size > usize::MAX - (self.config.alignment - 1) {
-            return Err(ZiporaError::invalid_data("Allocation size must be non-zero and representable after alignment"));
+        if size == 0 || size > isize::MAX as usize {
+            return Err(ZiporaError::invalid_data("Allocation size must be non-zero and at most isize::MAX"));
         }
         let aligned_size = self.align_up(size);
         
@@ -318,7 +318,7 @@ impl NoLockingPool {
     
     /// Free previously allocated memory block
     pub fn free(&mut self, offset: MemOffset, size: usize) -> Result<()> {
-        if size == 0 || size > usize::MAX - (self.config.alignment - 1) {
+        if size == 0 || size > isize::MAX as usize {
             return Err(ZiporaError::invalid_data("Block size was never allocated by this pool"));
         }
         let aligned_size = self.align_up(size);
@@ -495,8 +495,8 @@ impl MutexBasedPool {
     }
     
     pub fn alloc(&self, size: usize) -> Result<MemOffset> {
-        if size == 0 || size > usize::MAX - (self.config.alignment - 1) {
-            return Err(ZiporaError::invalid_data("Allocation size must be non-zero and representable after alignment"));
+        if size == 0 || size > isize::MAX as usize {
+            return Err(ZiporaError::invalid_data("Allocation size must be non-zero and at most isize::MAX"));
         }
         let aligned_size = self.align_up(size);
         
@@ -508,7 +508,7 @@ impl MutexBasedPool {
     }
     
     pub fn free(&self, offset: MemOffset, size: usize) -> Result<()> {
-        if size == 0 || size > usize::MAX - (self.config.alignment - 1) {
+        if size == 0 || size > isize::MAX as usize {
             return Err(ZiporaError::invalid_data("Block size was never allocated by this pool"));
         }
         let aligned_size = self.align_up(size);
@@ -655,8 +655,8 @@ impl LockFreePool {
     }
     
     pub fn alloc(&self, size: usize) -> Result<MemOffset> {
-        if size == 0 || size > usize::MAX - (self.config.alignment - 1) {
-            return Err(ZiporaError::invalid_data("Allocation size must be non-zero and representable after alignment"));
+        if size == 0 || size > isize::MAX as usize {
+            return Err(ZiporaError::invalid_data("Allocation size must be non-zero and at most isize::MAX"));
         }
         let aligned_size = self.align_up(size);
         
@@ -668,7 +668,7 @@ impl LockFreePool {
     }
     
     pub fn free(&self, offset: MemOffset, size: usize) -> Result<()> {
-        if size == 0 || size > usize::MAX - (self.config.alignment - 1) {
+        if size == 0 || size > isize::MAX as usize {
             return Err(ZiporaError::invalid_data("Block size was never allocated by this pool"));
         }
         let aligned_size = self.align_up(size);
@@ -892,8 +892,8 @@ impl ThreadLocalPool {
     }
     
     pub fn alloc(&self, size: usize) -> Result<MemOffset> {
-        if size == 0 || size > usize::MAX - (self.config.alignment - 1) {
-            return Err(ZiporaError::invalid_data("Allocation size must be non-zero and representable after alignment"));
+        if size == 0 || size > isize::MAX as usize {
+            return Err(ZiporaError::invalid_data("Allocation size must be non-zero and at most isize::MAX"));
         }
         let aligned_size = self.align_up(size);
         
@@ -931,7 +931,7 @@ impl ThreadLocalPool {
     }
     
     pub fn free(&self, offset: MemOffset, size: usize) -> Result<()> {
-        if size == 0 || size > usize::MAX - (self.config.alignment - 1) {
+        if size == 0 || size > isize::MAX as usize {
             return Err(ZiporaError::invalid_data("Block size was never allocated by this pool"));
         }
         let aligned_size = self.align_up(size);
@@ -1002,8 +1002,8 @@ impl FixedCapacityPool {
     }
     
     pub fn alloc(&mut self, size: usize) -> Result<MemOffset> {
-        if size == 0 || size > usize::MAX - (self.config.alignment - 1) {
-            return Err(ZiporaError::invalid_data("Allocation size must be non-zero and representable after alignment"));
+        if size == 0 || size > isize::MAX as usize {
+            return Err(ZiporaError::invalid_data("Allocation size must be non-zero and at most isize::MAX"));
         }
         let aligned_size = self.align_up(size);
         
